@@ -239,9 +239,13 @@ func New(o Opts) (*Stack, error) {
 		grpc.ChainStreamInterceptor(s.streamRecover),
 		grpc.MaxRecvMsgSize(64<<20),
 	)
+	lis, gsrv := s.lis, s.grpcSrv
+	started := make(chan struct{})
 	go func() {
-		_ = server.ServeGRPC(s.lis, s.grpcSrv, !o.NoDepsCheck, o.Mangle, true, maxBlob, c, silent, silent)
+		close(started)
+		_ = server.ServeGRPC(lis, gsrv, !o.NoDepsCheck, o.Mangle, true, maxBlob, c, silent, silent)
 	}()
+	<-started
 	conn, err := grpc.NewClient("passthrough://bufnet",
 		grpc.WithTransportCredentials(insecure.NewCredentials()),
 		grpc.WithContextDialer(func(context.Context, string) (net.Conn, error) { return s.lis.Dial() }),
